@@ -5,7 +5,8 @@ import networkx as nx
 
 from symx import AND, OR, NOT, EQ, SUM
 from vf.graphs import relabel
-from harness.reactor_common import (ALPHABET, sym_reaction, plain_substrate, its_iso, reactor)  # noqa
+from harness.reactor_common import (ALPHABET, sym_reaction, plain_substrate, its_iso, its_same, reactor,  # noqa
+                                    family_reaction, FAMILIES)
 
 PROPERTY = "C04"
 
@@ -14,7 +15,9 @@ META = dict(
         quick="all balanced reactions on n=2 atoms (element {C,O}, hcount per side 0..2, charge per side 0..1, order per side "
               "0..2) and on n=3 atoms (hcount 0..1, charge 0, orders 0..2); template = reaction centre and full ITS, under "
               "a solver-chosen renumbering of the template; forward on the reactants and invert=True on the products; "
-              "strategy all, and comp/bt where the component-aware semantics admit the identity placement",
+              "strategy all, and comp/bt where the component-aware semantics admit the identity placement; plus concrete families "
+              "with a symmetric centre and symbolic substituents: [2+2] cycloaddition (4-atom centre), allylic shift (3 atoms) "
+              "[thorough: Diels-Alder, 6 atoms]",
         thorough="n=3 with charges, n=4 (hcount 0..1, charge 0, orders 0..1) for the centre template",
     ),
     outside=["SMILES rewriting of the reaction, Standardize comparison (RDKit)", "explicit-hydrogen templates",
@@ -98,7 +101,37 @@ def h_own(E, n, kind, direction, hmax=2, cs=(0, 1), omax=2):
     E.observe(n_res)
 
 
-HARNESSES = {"own": h_own}
+def h_family(E, family, direction):
+    """own-template regeneration for concrete reaction families whose centre is symmetric while the substituents around it
+    are symbolic (the centre template has >= 3-6 atoms with identical labels)."""
+    from synkit.Graph.ITS.its_construction import ITSConstruction
+    from synkit.Graph.ITS.its_decompose import get_rc
+
+    G, H = family_reaction(E, family)
+    its = ITSConstruction.ITSGraph(G, H)
+    rc = get_rc(its)
+    tn = list(rc.nodes)
+    sigma = [int(x) for x in E.perm("sigma", len(tn))] if len(tn) <= 4 else [(i * 5 + 2) % len(tn) for i in range(len(tn))]
+    base = sorted(tn)
+    tmpl = relabel(rc, {v: base[sigma[i]] for i, v in enumerate(tn)}, order=[v for _, v in sorted(zip(sigma, tn))])
+    for v in tmpl.nodes:
+        tmpl.nodes[v]["atom_map"] = v
+    if direction == "fwd":
+        sub, want, invert = plain_substrate(G), its, False
+    else:
+        sub, want, invert = plain_substrate(H), ITSConstruction.ITSGraph(H, G), True
+    res = reactor(sub, tmpl, "all", invert).its_list
+    info = dict(family=family, direction=direction, sigma=sigma, n_results=len(res))
+    cheap = OR([its_same(r, want) for r in res])
+    if E.feasible(NOT(cheap)):
+        E.check(NOT(OR([its_iso(r, want) for r in res])), "own-template-regenerates-the-reaction", info)
+    else:
+        E.check(False, "own-template-regenerates-the-reaction", info)
+    E.note(nontrivial=len(res) > 1)
+    E.observe(len(res))
+
+
+HARNESSES = {"own": h_own, "family": h_family}
 
 
 def shards(tier, seed):
@@ -107,6 +140,9 @@ def shards(tier, seed):
         for direction in ("fwd", "bwd"):
             sh.append(dict(h="own", params=dict(n=2, kind=kind, direction=direction)))
             sh.append(dict(h="own", params=dict(n=3, kind=kind, direction=direction, hmax=1, cs=[0], omax=2 if kind == "rc" else 1)))
+    for fam in ("2+2", "ene-shift") + (("DA",) if tier == "thorough" else ()):
+        for direction in ("fwd", "bwd"):
+            sh.append(dict(h="family", params=dict(family=fam, direction=direction)))
     if tier == "thorough":
         for kind in ("rc", "its"):
             for direction in ("fwd", "bwd"):
